@@ -500,6 +500,7 @@ func runC18(c *Ctx) {
 	checkSpawnGuardsAreAtomicTestAndSet(c, "C18-R5")
 	checkNeutrinoProducerDiscipline(c, "C18-R4", "bc")
 	checkNeutrinoStartResetsOnlyWhenStopped(c, "C18-R5")
+	checkStartedFlagMeansHandlerRuns(c, "C18-R5")
 	checkProducerNotifiesRelevantTxOnce(c, "C18-R4")
 	checkReorgListBuiltInOneDirection(c, "C18-R4") // the producer enqueues a reorganised branch in chain order
 }
